@@ -8,6 +8,9 @@ import Sparrow.Model.Brdf
 import Sparrow.Model.Frame
 import Sparrow.Model.Kang
 import Sparrow.Model.Directivity
+import Sparrow.Model.PointPatch
+import Sparrow.Model.Stokes
+import Sparrow.Model.Visibility
 import Sparrow.Generated.CheckParse
 open Sparrow Driver
 
@@ -428,6 +431,88 @@ def cmdDirFactor : P String := do
   let mg := argminMargin nd fun k => Vec3.sqDist (vec3At ds k) u
   return "ok " ++ hexOfFloat v ++ s!" | {di} {fi} | " ++ hexOfFloat mg
 
+/-- `ptsol mode n point[3] pts[3n]` (mode 0 = source, 1 = receiver) → `ok value | minimal |1-|cos|| of the angles` -/
+def cmdPtSol : P String := do
+  let mode ← nat; let n ← nat
+  let x ← flts 3; let ps ← flts (3 * n)
+  let pts := fun i => vec3At ps i
+  let v := if mode = 0 then ptSource 1e-10 (vec3At x 0) pts n else ptReceiver 1e-10 (vec3At x 0) pts n
+  -- conditioning of arccos: distance of each cosine from ±1
+  let mut mg : Float := 1.0
+  for i in [0:n] do
+    let s := onSphere (vec3At x 0) pts
+    let v0 := sphereTangent 1e-10 (s i) (s ((i + n - 1) % n))
+    let v1 := sphereTangent 1e-10 (s i) (s ((i + 1) % n))
+    let c := Float.abs (Vec3.dot v0 v1)
+    if 1.0 - c < mg then mg := 1.0 - c
+  return "ok " ++ hexOfFloat v ++ " | " ++ hexOfFloat mg
+
+/-- `stokes ni nj area pi[3ni] pj[3nj]` → `ok value | integrator(0 nusselt,1 stokes) | min margin of the extent cut-off` -/
+def cmdStokes : P String := do
+  let ni ← nat; let nj ← nat; let area ← flt
+  let a ← flts (3 * ni); let b ← flts (3 * nj)
+  let pi := fun i => vec3At a i
+  let pj := fun j => vec3At b j
+  let v := stokesFF 1e-3 pi pj ni nj area
+  let integ := if chooseIntegrator 1e-6 pi pj ni nj == Integrator.nusselt then 0 else 1
+  -- margin: how close any edge extent is to the 1e-3 cut-off
+  let mut mg : Float := 1.0
+  for dim in [0:3] do
+    for e in [0:ni] do
+      let d := Float.abs (Float.abs (bcoord pi ni (conn ni e 4) dim - bcoord pi ni (conn ni e 0) dim) - 1e-3)
+      if d < mg then mg := d
+    for e in [0:nj] do
+      let d := Float.abs (Float.abs (bcoord pj nj (conn nj e 4) dim - bcoord pj nj (conn nj e 0) dim) - 1e-3)
+      if d < mg then mg := d
+  return "ok " ++ hexOfFloat v ++ s!" | {integ} | " ++ hexOfFloat mg
+
+/-- `boole x[5] y[5]` → `ok value` -/
+def cmdBoole : P String := do
+  let x ← flts 5; let y ← flts 5
+  return "ok " ++ hexOfFloat (boole (fun k => x.getD k 0) (fun k => y.getD k 0))
+
+/-- `bsample n el[3n]` → `ok pts[4n*3] | conn[n*5]` -/
+def cmdBSample : P String := do
+  let n ← nat
+  let a ← flts (3 * n)
+  let el := fun i => vec3At a i
+  let mut out := Array.mkEmpty (12 * n)
+  for k in [0:4*n] do
+    let p := bpoint el n k
+    out := out.push p.x |>.push p.y |>.push p.z
+  let mut cn := Array.mkEmpty (5 * n)
+  for e in [0:n] do
+    for k in [0:5] do
+      cn := cn.push (conn n e k)
+  return "ok " ++ fmtFloats out ++ " | " ++ fmtNats cn
+
+/-- `basicvis a[3] b[3] n normal[3] pts[3n]` → `ok flag aIn bIn` -/
+def cmdBasicVis : P String := do
+  let a ← flts 3; let b ← flts 3
+  let n ← nat
+  let nv ← flts 3
+  let ps ← flts (3 * n)
+  let poly := fun i => vec3At ps i
+  let f := basicVisibility 1e-6 (vec3At a 0) (vec3At b 0) poly n (vec3At nv 0)
+  let ai := pointInPolygon 1e-6 (vec3At a 0) poly n (vec3At nv 0)
+  let bi := pointInPolygon 1e-6 (vec3At b 0) poly n (vec3At nv 0)
+  return s!"ok {if f then 1 else 0} {if ai then 1 else 0} {if bi then 1 else 0}"
+
+/-- `visscan a[3] b[3] nSurf nPts normals[3*nSurf] pts[3*nSurf*nPts]` → `ok flag` -/
+def cmdVisScan : P String := do
+  let a ← flts 3; let b ← flts 3
+  let ns ← nat; let np ← nat
+  let nv ← flts (3 * ns)
+  let ps ← flts (3 * ns * np)
+  let f := visibleThroughAll 1e-6 (vec3At a 0) (vec3At b 0) ns (fun s i => vec3At ps (s * np + i)) np (fun s => vec3At nv s)
+  return s!"ok {if f then 1 else 0}"
+
+/-- `rotmat n[3]` → `ok m[9]` -/
+def cmdRotMat : P String := do
+  let nv ← flts 3
+  let m := rotationToZ (vec3At nv 0)
+  return "ok " ++ fmtFloats #[m.r0.x, m.r0.y, m.r0.z, m.r1.x, m.r1.y, m.r1.z, m.r2.x, m.r2.y, m.r2.z]
+
 def dispatch (cmd : String) : P String :=
   match cmd with
   | "exchange" => cmdExchange
@@ -444,6 +529,13 @@ def dispatch (cmd : String) : P String :=
   | "frame" => cmdFrame
   | "kangff" => cmdKangFF
   | "metrics" => cmdMetrics
+  | "ptsol" => cmdPtSol
+  | "stokes" => cmdStokes
+  | "basicvis" => cmdBasicVis
+  | "visscan" => cmdVisScan
+  | "rotmat" => cmdRotMat
+  | "boole" => cmdBoole
+  | "bsample" => cmdBSample
   | "dirfactor" => cmdDirFactor
   | "kanginit" => cmdKangInit
   | "kangrun" => cmdKangRun
